@@ -242,7 +242,10 @@ def discharge(out, opts):
                 # must NOT be provable; `unknown` is accepted (no model for quantified hypotheses)
                 st, be, secs, model, reason = check(ob.hyps, ob.goal, {}, timeout_ms=2000, use_cvc5=False)
             else:
-                st, be, secs, model, reason = check(ob.hyps, ob.goal, getattr(ob, "inputs", {}), timeout_ms=timeout,
+                # a goal that is literally False (e.g. a call outside the verified domain of the callee's contract) can only be
+                # "proved" by an infeasible path: a short feasibility check, then the bounded candidate search below
+                tmo = min(timeout, 2500) if z3.is_false(ob.goal) else timeout
+                st, be, secs, model, reason = check(ob.hyps, ob.goal, getattr(ob, "inputs", {}), timeout_ms=tmo,
                                                     second_opinion=second)
         except z3.Z3Exception as e:
             st, be, secs, model, reason = "unknown", "z3-error", 0.0, None, str(e)
